@@ -87,6 +87,34 @@ static inline struct VecI gv_veci_new(Index n)
 }
 #define GV_SWAP_INDEX(a, b) do { Index *gv_pa = &(a), *gv_pb = &(b); Index gv_t = *gv_pa; *gv_pa = *gv_pb; *gv_pb = gv_t; } while (0)
 
+
+/* ---------------------------------------------------------------- SVD::lindep (item: the flag must be about UNKNOWN i) */
+struct VecF { Index dim; Float *p; };
+struct SVD {
+  Index m, n;
+  Index decomposed;
+  Index defect;
+  struct VecF inv_W_;     /* inv_W_(k) == 0  <=>  the k-th SINGULAR VALUE is below the tolerance */
+  _Bool *gv_dep;          /* ghost, one flag per UNKNOWN: a set D of unknowns with |D| == defect whose removal leaves a full-rank system
+                             (exists by linear algebra; it is what C20 lets lindep() name) */
+};
+static inline Float *gv_vecf_at(const struct VecF *v, Index k)
+{
+  __CPROVER_assert(1 <= k && k <= v->dim, "Vec<Float>::operator(): 1 <= k <= dim");
+  return v->p + (k - 1);
+}
+#define SVD_OK(s) (1 <= (s)->n && (s)->n <= MAXDIM && (s)->inv_W_.dim == (s)->n && __CPROVER_rw_ok((s)->inv_W_.p, (size_t)(s)->n * sizeof(Float)) && \
+                   __CPROVER_r_ok((s)->gv_dep, (size_t)(s)->n))
+/* svd(): Golub-Reinsch decomposition A = U W V'.  What it promises about inv_W_: one entry per singular value, in the order in which the QR
+   sweep happens to deliver them (the routine does not sort), zero exactly for the `defect` values below the tolerance.  Singular value k
+   belongs to the k-th column of V -- a direction in the space of unknowns -- and has no relation to unknown k. */
+void SVD_svd(struct SVD *self)
+__CPROVER_requires(gv_exc == 0 && SVD_OK(self))
+__CPROVER_assigns(self->decomposed, self->defect, gv_exc, __CPROVER_object_whole(self->inv_W_.p))
+__CPROVER_ensures(gv_exc == 0 || gv_exc == GV_NoConvergence || gv_exc == GV_BadRegularization)
+__CPROVER_ensures(gv_exc == 0 ==> (self->decomposed && 0 <= self->defect && self->defect <= self->n))
+;
+
 /* permutation facts, stated at an index (1-based arrays stored 0-based) */
 #define PERM_AT(s, k) (!(1 <= (k) && (k) <= (s)->N) ||                                                       \
                        (1 <= (s)->perm.p[(k) - 1] && (s)->perm.p[(k) - 1] <= (s)->N && gv_pos.p[(s)->perm.p[(k) - 1] - 1] == (k)))
@@ -100,6 +128,25 @@ static inline struct VecI gv_veci_new(Index n)
 #define CH_SOLVED(s)  ((s)->is_solved && 0 <= (s)->N && (s)->N <= MAXDIM && 0 <= (s)->nullity && (s)->nullity <= (s)->N &&          \
                        (s)->N0 == (s)->N - (s)->nullity && (s)->perm.dim == (s)->N && (s)->invp.dim == (s)->N && gv_pos.dim == (s)->N && \
                        (s)->perm.p != NULL && (s)->invp.p != NULL && gv_pos.p != NULL)
+/* solve() as seen by its callers: the clauses of its own contract below, minus the frees clause */
+void AdjCholDec_solve_cc(struct AdjCholDec *self)
+__CPROVER_requires(gv_exc == 0 && self->pA != NULL && self->pb != NULL)
+__CPROVER_requires(0 <= self->pA->rows && self->pA->rows <= MAXDIM && 0 <= self->pA->cols && self->pA->cols <= MAXDIM && self->pb->dim == self->pA->rows)
+__CPROVER_requires(CH_HEAP_OK(self) && VECI_OK(&self->perm) && VECI_OK(&self->invp) && (self->minx_t == ALL || self->minx_t == SUBSET))
+__CPROVER_requires(self->s_tol == self->s_tol)
+__CPROVER_requires(self->is_solved ==> (self->N == self->pA->cols && CH_SOLVED(self) && PERM_AT(self, gv_k0) && POS_AT(self, gv_v0) && INVP_AT(self, gv_v0)))
+__CPROVER_assigns(self->is_solved, self->M, self->N, self->perm, self->invp, self->mat, self->rhs, self->s_tol, self->nullity, self->N0, self->x0,
+                  self->Q0, self->minx_n, self->minx_i, self->G, self->x, self->r, gv_exc, gv_payload, gv_pos)
+__CPROVER_ensures(gv_exc == 0 || gv_exc == GV_BadRegularization)
+__CPROVER_ensures(CH_SOLVED(self) && self->N == self->pA->cols)
+__CPROVER_ensures((__CPROVER_old(self->is_solved) && self->perm.p == __CPROVER_old(self->perm.p)) || __CPROVER_is_fresh(self->perm.p, (size_t)self->N * sizeof(Index)))
+__CPROVER_ensures((__CPROVER_old(self->is_solved) && self->invp.p == __CPROVER_old(self->invp.p)) || __CPROVER_is_fresh(self->invp.p, (size_t)self->N * sizeof(Index)))
+__CPROVER_ensures((__CPROVER_old(self->is_solved) && gv_pos.p == __CPROVER_old(gv_pos.p)) || __CPROVER_is_fresh(gv_pos.p, (size_t)self->N * sizeof(Index)))
+__CPROVER_ensures(PERM_AT(self, gv_k0) && POS_AT(self, gv_v0))
+__CPROVER_ensures(INVP_AT(self, gv_v0))
+__CPROVER_ensures(gv_exc == GV_BadRegularization ==> (self->is_solved && self->x.gv_tag == self->x0.gv_tag && self->nullity > 0))
+__CPROVER_ensures(CH_HEAP_OK(self))
+;
 //@ end
 
 //@ contract AdjCholDec_dot
@@ -116,12 +163,15 @@ __CPROVER_requires(gv_exc == 0 && self->pA != NULL && self->pb != NULL)
 __CPROVER_requires(0 <= self->pA->rows && self->pA->rows <= MAXDIM && 0 <= self->pA->cols && self->pA->cols <= MAXDIM && self->pb->dim == self->pA->rows)
 __CPROVER_requires(CH_HEAP_OK(self) && VECI_OK(&self->perm) && VECI_OK(&self->invp) && (self->minx_t == ALL || self->minx_t == SUBSET))
 __CPROVER_requires(self->s_tol == self->s_tol)
-__CPROVER_requires(self->is_solved ==> (CH_SOLVED(self) && PERM_AT(self, gv_k0) && POS_AT(self, gv_v0) && INVP_AT(self, gv_v0)))
+__CPROVER_requires(self->is_solved ==> (self->N == self->pA->cols && CH_SOLVED(self) && PERM_AT(self, gv_k0) && POS_AT(self, gv_v0) && INVP_AT(self, gv_v0)))
 __CPROVER_assigns(self->is_solved, self->M, self->N, self->perm, self->invp, self->mat, self->rhs, self->s_tol, self->nullity, self->N0, self->x0,
                   self->Q0, self->minx_n, self->minx_i, self->G, self->x, self->r, gv_exc, gv_payload, gv_pos)
 __CPROVER_frees(self->perm.p, self->invp.p, self->minx_i, gv_pos.p)
 __CPROVER_ensures(gv_exc == 0 || gv_exc == GV_BadRegularization)
-__CPROVER_ensures(CH_SOLVED(self))
+__CPROVER_ensures(CH_SOLVED(self) && self->N == self->pA->cols)
+__CPROVER_ensures((__CPROVER_old(self->is_solved) && self->perm.p == __CPROVER_old(self->perm.p)) || __CPROVER_is_fresh(self->perm.p, (size_t)self->N * sizeof(Index)))
+__CPROVER_ensures((__CPROVER_old(self->is_solved) && self->invp.p == __CPROVER_old(self->invp.p)) || __CPROVER_is_fresh(self->invp.p, (size_t)self->N * sizeof(Index)))
+__CPROVER_ensures((__CPROVER_old(self->is_solved) && gv_pos.p == __CPROVER_old(gv_pos.p)) || __CPROVER_is_fresh(gv_pos.p, (size_t)self->N * sizeof(Index)))
 __CPROVER_ensures(PERM_AT(self, gv_k0) && POS_AT(self, gv_v0))
 __CPROVER_ensures(INVP_AT(self, gv_v0))
 __CPROVER_ensures(gv_exc == GV_BadRegularization ==> (self->is_solved && self->x.gv_tag == self->x0.gv_tag && self->nullity > 0))
@@ -330,6 +380,16 @@ __CPROVER_ensures(gv_exc == 0 ==> (__CPROVER_return_value == (self->nullity > 0 
 GV_CANARY("AdjCholDec_lindep entry");
 //@ end
 
+/* SVD::lindep(i), contract from the property: the answer is the membership of UNKNOWN i in the dependent set */
+//@ contract SVD_lindep
+__CPROVER_requires(gv_exc == 0 && SVD_OK(self) && 1 <= i && i <= self->n)
+__CPROVER_assigns(self->decomposed, self->defect, gv_exc, __CPROVER_object_whole(self->inv_W_.p))
+__CPROVER_ensures(gv_exc == 0 ==> self->decomposed)
+__CPROVER_ensures(gv_exc == 0 ==> (__CPROVER_return_value == self->gv_dep[i - 1]))
+//@ entry SVD_lindep
+GV_CANARY("SVD_lindep entry");
+//@ end
+
 //@ harness
 static struct Mat gv_the_A;
 static struct Vec gv_the_b;
@@ -344,6 +404,7 @@ static void mk_chol(struct AdjCholDec *S)
   S->pb = &gv_the_b;
   S->minx_n = nolist ? 0 : nl;
   S->minx_i = nolist ? NULL : malloc((size_t)nl * sizeof(Index));
+  if (S->is_solved) { np = n; ni = n; ng = n; noperm = noinvp = nopos = 0; }
   S->perm.dim = noperm ? 0 : np;  S->perm.p = noperm ? NULL : malloc((size_t)np * sizeof(Index));
   S->invp.dim = noinvp ? 0 : ni;  S->invp.p = noinvp ? NULL : malloc((size_t)ni * sizeof(Index));
   gv_pos.dim = nopos ? 0 : ng;    gv_pos.p = nopos ? NULL : malloc((size_t)ng * sizeof(Index));
@@ -357,7 +418,7 @@ void h_chol_solve(void)
   struct AdjCholDec S; mk_chol(&S);
   Index k0, v0;
   gv_k0 = k0; gv_v0 = v0;
-  __CPROVER_assume(!S.is_solved || (CH_SOLVED(&S) && PERM_AT(&S, gv_k0) && POS_AT(&S, gv_v0) && INVP_AT(&S, gv_v0)));
+  __CPROVER_assume(!S.is_solved || (S.N == gv_the_A.cols && CH_SOLVED(&S) && PERM_AT(&S, gv_k0) && POS_AT(&S, gv_v0) && INVP_AT(&S, gv_v0)));
   AdjCholDec_solve(&S);
   GV_CANARY("h_chol_solve end");
 }
@@ -370,5 +431,19 @@ void h_chol_lindep(void)
   __CPROVER_assume(!S.is_solved || (S.N == gv_the_A.cols && CH_SOLVED(&S) && PERM_AT(&S, gv_k0) && POS_AT(&S, gv_v0) && INVP_AT(&S, gv_v0)));
   AdjCholDec_lindep(&S, n);
   GV_CANARY("h_chol_lindep end");
+}
+void h_svd_lindep(void)
+{
+  struct SVD S;
+  Index n, i;
+  __CPROVER_assume(1 <= n && n <= MAXDIM && 1 <= i && i <= n);
+  S.n = n;
+  S.inv_W_.dim = n;
+  S.inv_W_.p = malloc((size_t)n * sizeof(Float));
+  S.gv_dep = malloc((size_t)n);
+  __CPROVER_assume(S.inv_W_.p != NULL && S.gv_dep != NULL);
+  gv_exc = 0;
+  SVD_lindep(&S, i);
+  GV_CANARY("h_svd_lindep end");
 }
 //@ end
